@@ -42,6 +42,9 @@ package keeper
 //@ ensures err == nil ==> has(Store_tss, types.ConfirmStoreKey(req.GroupID, req.MemberID))
 //@ ensures err == nil && old(ccCount(Store_tss, req.GroupID)) < MaxUint64 ==> ccCount(Store_tss, req.GroupID) == old(ccCount(Store_tss, req.GroupID)) + 1
 //@ ensures err != nil ==> Store_tss == old(Store_tss)
+// C18 / C04: the group is queued for the end of round 3 only when EVERY member has answered (confirm/complain count ==
+// group size, not threshold): until then the queue is left alone
+//@ ensures err == nil && ccCount(Store_tss, req.GroupID) != old(groupAt(Store_tss, req.GroupID)).Size_ ==> Store_tss[types.PendingProcessGroupsStoreKey] == old(Store_tss)[types.PendingProcessGroupsStoreKey]
 
 // ---- C04: round-2 submission ----------------------------------------------------------------------
 //@ spec r2Count(s Store, g Int) Int = u64of(s[types.Round2InfoCountStoreKey(g)])
@@ -126,14 +129,20 @@ package keeper
 //@ func (k Keeper) GetPartialSignatures
 //@ trusted
 //@ ensures result == partialSigsOf(Store_tss, signingID, attempt)
+// the accounts assigned to the current attempt of a signing (decode loop: abstract)
+//@ spec assignedAddrs(s Store, id Int) []sdk.AccAddress uninterpreted
 //@ func (k Keeper) MustGetCurrentAssignedMembers
 //@ trusted
+//@ ensures result == assignedAddrs(Store_tss, signingID)
 //@ requires has(Store_tss, types.SigningStoreKey(signingID)) && has(Store_tss, types.SigningAttemptStoreKey(signingID, signingAt(Store_tss, signingID).CurrentAttempt))
 // C03: the stored group signature is the COMBINATION of the partial signatures of the current attempt, and it is
 // stored - with status SUCCESS - only if it verifies under the signing's group public key for the signing's message;
 // otherwise nothing changes at all. Only this signing's record is written.
 //@ func (k Keeper) AggregatePartialSignatures
-//@ modifies Store_tss, Other, Bank
+//@ modifies Store_tss, Other, Bank, Count_OnSigningCompleted, CompletedWith
+// C13: when the owner module is told the signing is complete, it is told THIS signing and handed the members ASSIGNED to its
+// current attempt (the ones to be paid) - not, say, the members that have not submitted, of which there are none by now
+//@ ensures forall id Int :: Count_OnSigningCompleted[id] != old(Count_OnSigningCompleted)[id] ==> id == signingID && err == nil && CompletedWith == assignedAddrs(Store_tss, signingID)
 //@ requires readySigning(Store_tss, signingID) && wfSignings(Store_tss)
 //@ ensures  wfSignings(Store_tss)
 //@ ensures  forall q Bz :: q != types.SigningStoreKey(signingID) ==> Store_tss[q] == old(Store_tss)[q]
@@ -207,9 +216,15 @@ package keeper
 // isolated cache context (one with no other uncommitted writes) that the caller discards on error.
 // member selection + nonce consumption + commitment arithmetic for one attempt (GetRandomMembers and DequeueDE are
 // verified on their own; the curve arithmetic in between is not): only DE queues / DE entries change
+// (what it was asked to do is recorded: the committee of an attempt is drawn for THAT signing and attempt - the DRBG nonce
+// is signing id || attempt number - and bound to THAT message)
+//@ ghost AssignNonce Bz
+//@ ghost AssignMsg Bz
+//@ ghost AssignGroup Int
 //@ func (k Keeper) AssignMembersForSigning
 //@ trusted
-//@ modifies Store_tss
+//@ modifies Store_tss, AssignNonce, AssignMsg, AssignGroup
+//@ ensures AssignNonce == nonce && AssignMsg == msg && AssignGroup == groupID
 // (it fails for its own reasons - too few members, a missing nonce - never with the retry-limit error)
 //@ ensures err != types.ErrMaxSigningAttemptExceeded
 //@ ensures forall q Bz :: !iskey(types.DEStoreKey, q) && !iskey(types.DEQueueStoreKey, q) ==> Store_tss[q] == old(Store_tss)[q]
@@ -219,7 +234,10 @@ package keeper
 // signing cannot be retried forever); the attempt expires SigningPeriod blocks from now; the signing is (re)set to
 // WAITING and queued for expiry under (id, that attempt); the pending-aggregation list is not touched.
 //@ func (k Keeper) InitiateNewSigningRound
-//@ modifies Store_tss
+//@ modifies Store_tss, AssignNonce, AssignMsg, AssignGroup
+// C09: the committee of attempt a of signing s is the sample for (s, a): seeded with s || a (both 8 bytes big-endian),
+// drawn from the signing's own group, bound to the signing's own message
+//@ ensures err == nil ==> AssignNonce == bzcat(u64be(signingID), u64be(signingAt(Store_tss, signingID).CurrentAttempt)) && AssignMsg == old(signingAt(Store_tss, signingID)).Message && AssignGroup == old(signingAt(Store_tss, signingID)).GroupID
 //@ requires isolated(ctx)
 //@ requires wfSignings(Store_tss)
 //@ ensures  Store_tss[types.PendingSigningsStoreKey] == old(Store_tss)[types.PendingSigningsStoreKey]
@@ -229,6 +247,8 @@ package keeper
 // the configured number of attempts is fully available: "max attempt exceeded" is returned ONLY when the new attempt
 // number really is beyond MaxSigningAttempt (attempt MaxSigningAttempt itself is still allowed)
 //@ ensures  err == types.ErrMaxSigningAttemptExceeded ==> old(signingAt(Store_tss, signingID)).CurrentAttempt + 1 > old(tssParams(Store_tss)).MaxSigningAttempt
+// (no other signing record is touched)
+//@ ensures  forall id Int :: id != signingID ==> Store_tss[types.SigningStoreKey(id)] == old(Store_tss)[types.SigningStoreKey(id)]
 //@ ensures  err == nil ==> (let a = old(signingAt(Store_tss, signingID)).CurrentAttempt + 1 in a <= old(tssParams(Store_tss)).MaxSigningAttempt && signingAt(Store_tss, signingID).CurrentAttempt == a && signingAt(Store_tss, signingID).Status == types.SIGNING_STATUS_WAITING)
 //@ ensures  err == nil ==> (let a = old(signingAt(Store_tss, signingID)).CurrentAttempt + 1 in signingAt(Store_tss, signingID).ID == signingID && signingAt(Store_tss, signingID).GroupID == old(signingAt(Store_tss, signingID)).GroupID && signingAt(Store_tss, signingID).Message == old(signingAt(Store_tss, signingID)).Message)
 //@ ensures  err == nil ==> (let a = old(signingAt(Store_tss, signingID)).CurrentAttempt + 1 in has(Store_tss, types.SigningAttemptStoreKey(signingID, a)) && attemptAt(Store_tss, signingID, a).ExpiredHeight == ctx.BlockHeight() + old(tssParams(Store_tss)).SigningPeriod && attemptAt(Store_tss, signingID, a).Attempt == a && attemptAt(Store_tss, signingID, a).SigningID == signingID)
@@ -249,7 +269,7 @@ package keeper
 // (i.e. before expiry handling), the list is emptied, and each retry runs in its own isolated cache context.
 //@ func (k Keeper) HandleSigningEndBlock
 //@ may_panic calls
-//@ modifies Store_tss, Other, Bank
+//@ modifies Store_tss, Other, Bank, AssignNonce, AssignMsg, AssignGroup, Count_OnSigningCompleted, CompletedWith
 //@ requires wfPending(Store_tss)
 //@ requires wfSignings(Store_tss)
 //@ ensures  len(pendingSids(Store_tss)) == 0
@@ -415,6 +435,8 @@ package keeper
 //@ func (k Keeper) DeleteAllDKGInterimData
 //@ trusted
 //@ modifies Store_tss
+// (... and it is THIS group's interim data only: another group's round-1/round-2 submissions, confirms and complaints stay)
+//@ ensures forall g Int, m Int :: g != groupID ==> Store_tss[types.Round1InfoStoreKey(g, m)] == old(Store_tss)[types.Round1InfoStoreKey(g, m)] && Store_tss[types.Round2InfoStoreKey(g, m)] == old(Store_tss)[types.Round2InfoStoreKey(g, m)] && Store_tss[types.ConfirmStoreKey(g, m)] == old(Store_tss)[types.ConfirmStoreKey(g, m)] && Store_tss[types.ComplainsWithStatusStoreKey(g, m)] == old(Store_tss)[types.ComplainsWithStatusStoreKey(g, m)]
 //@ ensures forall g Int :: Store_tss[types.GroupStoreKey(g)] == old(Store_tss)[types.GroupStoreKey(g)]
 //@ ensures Store_tss[types.GroupCountStoreKey] == old(Store_tss)[types.GroupCountStoreKey] && Store_tss[types.LastExpiredGroupIDStoreKey] == old(Store_tss)[types.LastExpiredGroupIDStoreKey] && Store_tss[types.ParamsKey] == old(Store_tss)[types.ParamsKey]
 // (only DKG interim records of the group are deleted: signing records and the two end-block queues are other keys)
@@ -439,6 +461,11 @@ package keeper
 //@ ensures  forall g Int :: g > lastExpiredGroup(Store_tss) || g <= old(lastExpiredGroup(Store_tss)) ==> Store_tss[types.GroupStoreKey(g)] == old(Store_tss)[types.GroupStoreKey(g)]
 // no group record appears or disappears
 //@ ensures forall g Int :: has(Store_tss, types.GroupStoreKey(g)) == old(has(Store_tss, types.GroupStoreKey(g)))
+// C04: the sweep cleans up the groups it passes, nobody else's key generation: the round-1/round-2 submissions, confirms and
+// complaints of every group it did NOT pass are untouched (wiping a running group's round data makes a valid complaint
+// unverifiable, and the honest complainant is then the one blamed)
+//@ ensures forall g Int, m Int :: (g > lastExpiredGroup(Store_tss) || g <= old(lastExpiredGroup(Store_tss))) ==> Store_tss[types.Round1InfoStoreKey(g, m)] == old(Store_tss)[types.Round1InfoStoreKey(g, m)] && Store_tss[types.Round2InfoStoreKey(g, m)] == old(Store_tss)[types.Round2InfoStoreKey(g, m)] && Store_tss[types.ConfirmStoreKey(g, m)] == old(Store_tss)[types.ConfirmStoreKey(g, m)] && Store_tss[types.ComplainsWithStatusStoreKey(g, m)] == old(Store_tss)[types.ComplainsWithStatusStoreKey(g, m)]
+//@ loop 0: invariant forall g Int, m Int :: (g >= groupID || g <= old(lastExpiredGroup(Store_tss))) ==> Store_tss[types.Round1InfoStoreKey(g, m)] == old(Store_tss)[types.Round1InfoStoreKey(g, m)] && Store_tss[types.Round2InfoStoreKey(g, m)] == old(Store_tss)[types.Round2InfoStoreKey(g, m)] && Store_tss[types.ConfirmStoreKey(g, m)] == old(Store_tss)[types.ConfirmStoreKey(g, m)] && Store_tss[types.ComplainsWithStatusStoreKey(g, m)] == old(Store_tss)[types.ComplainsWithStatusStoreKey(g, m)]
 //@ loop 0: invariant forall g Int :: has(Store_tss, types.GroupStoreKey(g)) == old(has(Store_tss, types.GroupStoreKey(g)))
 // signing records, parameters and the two end-block queues are not touched by the sweep
 //@ ensures (forall id Int :: Store_tss[types.SigningStoreKey(id)] == old(Store_tss)[types.SigningStoreKey(id)]) && (forall id Int, n Int :: Store_tss[types.SigningAttemptStoreKey(id, n)] == old(Store_tss)[types.SigningAttemptStoreKey(id, n)] && Store_tss[types.PartialSignatureCountStoreKey(id, n)] == old(Store_tss)[types.PartialSignatureCountStoreKey(id, n)]) && Store_tss[types.PendingSigningsStoreKey] == old(Store_tss)[types.PendingSigningsStoreKey] && Store_tss[types.PendingProcessGroupsStoreKey] == old(Store_tss)[types.PendingProcessGroupsStoreKey] && Store_tss[types.ParamsKey] == old(Store_tss)[types.ParamsKey] && Store_tss[types.GroupCountStoreKey] == old(Store_tss)[types.GroupCountStoreKey]
@@ -516,7 +543,7 @@ package keeper
 //@ func (k Keeper) RequestSigning
 //@ may_panic calls
 //@ readonly_funcvalues
-//@ modifies Store_tss, Other, Bank
+//@ modifies Store_tss, Other, Bank, AssignNonce, AssignMsg, AssignGroup
 //@ requires isolated(ctx)
 //@ requires wfSignings(Store_tss)
 //@ ensures err != nil ==> result == 0
@@ -582,3 +609,33 @@ package keeper
 //@ writers Round2InfoStoreKey: Keeper.SetRound2Info
 //@ writers SigningAttemptStoreKey: Keeper.DeleteSigningAttempt, Keeper.SetSigningAttempt
 //@ writers SigningStoreKey: Keeper.SetSigning
+
+// ---- read-only list getters (iterator + decode loops): results not modelled, no state written -------------------------
+// (so that a caller which uses one of them stays analysable: the list is an arbitrary well-typed value)
+//@ func (k Keeper) GetGroups
+//@ trusted
+//@ func (k Keeper) GetRound1Infos
+//@ trusted
+//@ func (k Keeper) GetRound2Infos
+//@ trusted
+//@ func (k Keeper) GetAllComplainsWithStatus
+//@ trusted
+//@ func (k Keeper) GetConfirms
+//@ trusted
+//@ func (k Keeper) GetMembers
+//@ trusted
+//@ func (k Keeper) GetPartialSignaturesWithKey
+//@ trusted
+
+// ---- C05: resetting one's nonces -------------------------------------------------------------------------------------------
+// After a successful reset the account has NO queued nonce: the queue is empty (0, 0) - it does not claim entries that were
+// just deleted - and every nonce that was queued is gone; other accounts' queues and nonces are untouched.
+//@ func (k Keeper) ResetDE
+//@ modifies Store_tss
+//@ requires wfDE(Store_tss, address)
+//@ ensures err == nil ==> DEQ(Store_tss, address).Head == 0 && DEQ(Store_tss, address).Tail == 0
+//@ ensures err == nil ==> (forall i Int :: { hasDE(Store_tss, address, i) | types.DEStoreKey(address, i) } old(DEQ(Store_tss, address)).Head <= i && i < old(DEQ(Store_tss, address)).Tail ==> !hasDE(Store_tss, address, i))
+//@ ensures forall q Bz :: !(iskey(types.DEStoreKey, q) && keyarg(types.DEStoreKey, q, 0) == address) && q != types.DEQueueStoreKey(address) ==> Store_tss[q] == old(Store_tss)[q]
+//@ loop 0: invariant deQueue.Head <= i && i <= deQueue.Tail && deQueue == old(DEQ(Store_tss, address))
+//@ loop 0: invariant forall j Int :: { hasDE(Store_tss, address, j) | types.DEStoreKey(address, j) } deQueue.Head <= j && j < i ==> !hasDE(Store_tss, address, j)
+//@ loop 0: invariant forall q Bz :: !(iskey(types.DEStoreKey, q) && keyarg(types.DEStoreKey, q, 0) == address) && q != types.DEQueueStoreKey(address) ==> Store_tss[q] == old(Store_tss)[q]
